@@ -84,12 +84,37 @@ class SingleFaults(Contract):
         if inst["kind"] not in (None, "none"):
             fault = D.Fault(inst["kind"], inst["rank"], inst["index"])
         try:
-            _ctxs, res, raised = spmd(h, inst["size"], inst["prog"],
-                                      fault=fault, staple=inst["staple"],
-                                      number=False)
+            ctxs, res, raised = spmd(h, inst["size"], inst["prog"],
+                                     fault=fault, staple=inst["staple"],
+                                     number=False)
         except D.NotApplicable:
             return
         what = inst["kind"] or inst["prog"]
+        # "on the affected ranks": the rank that owns the missing or surplus
+        # endpoint of a mismatched message must itself raise (the peer, which
+        # holds a perfectly good operation, need not)
+        if fault is not None and ctxs and len(ctxs) == inst["size"]:
+            nsend, nrecv = {}, {}
+            for r, c in ctxs.items():
+                for _d, dest, tag in c.sends:
+                    k = (r, dest, repr(tag))
+                    nsend[k] = nsend.get(k, 0) + 1
+                for src, tag in c.recvs:
+                    k = (src, r, repr(tag))
+                    nrecv[k] = nrecv.get(k, 0) + 1
+            owners = set()
+            for k in set(nsend) | set(nrecv):
+                if nsend.get(k, 0) != 1:
+                    owners.add(k[0])
+                if nrecv.get(k, 0) != 1:
+                    owners.add(k[1])
+            owners &= set(range(inst["size"]))
+            silent = sorted(owners - set(raised))
+            h.oblige(f"dist.faults.diagnosed-on-the-rank-owning-the-faulty-"
+                     f"endpoint[{what}]", z3.BoolVal(not silent),
+                     info=dict(silent_ranks=silent,
+                               raised={r: type(e).__name__
+                                       for r, (_s, e) in raised.items()}))
         h.oblige(f"dist.faults.diagnosed[{what}]", z3.BoolVal(res is None),
                  info="find and verify returned normally on every rank"
                  if res is not None else None)
